@@ -127,7 +127,8 @@ class VM:
 
         # Exception handling
         self.exception: Optional[JSValue] = None
-        self.exception_handlers: List[Tuple[int, int]] = []  # (frame_idx, catch_ip)
+        # (frame_idx, catch_ip, operand stack depth at TRY_START)
+        self.exception_handlers: List[Tuple[int, int, int]] = []
 
     def run(self, compiled: CompiledFunction) -> JSValue:
         """Run compiled bytecode and return result."""
@@ -648,6 +649,7 @@ class VM:
         elif op == OpCode.RETURN:
             result = self.stack.pop() if self.stack else UNDEFINED
             popped_frame = self.call_stack.pop()
+            self._discard_frame_state(popped_frame)
             # For constructor calls, return the new object unless result is an object
             if popped_frame.is_constructor_call:
                 if not isinstance(result, JSObject):
@@ -656,6 +658,7 @@ class VM:
 
         elif op == OpCode.RETURN_UNDEFINED:
             popped_frame = self.call_stack.pop()
+            self._discard_frame_state(popped_frame)
             # For constructor calls, return the new object
             if popped_frame.is_constructor_call:
                 self.stack.append(popped_frame.new_target)
@@ -676,7 +679,9 @@ class VM:
 
         elif op == OpCode.TRY_START:
             # arg is the catch handler offset
-            self.exception_handlers.append((len(self.call_stack) - 1, arg))
+            self.exception_handlers.append(
+                (len(self.call_stack) - 1, arg, len(self.stack))
+            )
 
         elif op == OpCode.TRY_END:
             if self.exception_handlers:
@@ -799,6 +804,17 @@ class VM:
 
         else:
             raise NotImplementedError(f"Opcode not implemented: {op.name}")
+
+    def _discard_frame_state(self, popped_frame: CallFrame) -> None:
+        """Drop what a returning frame left behind: operands above its base
+        (e.g. a for-in iterator when returning from inside the loop) and the
+        handlers of try blocks it returned out of."""
+        del self.stack[popped_frame.bp :]
+        while (
+            self.exception_handlers
+            and self.exception_handlers[-1][0] >= len(self.call_stack)
+        ):
+            self.exception_handlers.pop()
 
     def _get_name(self, frame: CallFrame, index: int) -> str:
         """Get a name from the name table."""
@@ -2478,11 +2494,14 @@ class VM:
                 exc.set("columnNumber", column)
 
         if self.exception_handlers:
-            frame_idx, catch_ip = self.exception_handlers.pop()
+            frame_idx, catch_ip, stack_depth = self.exception_handlers.pop()
 
             # Unwind call stack
             while len(self.call_stack) > frame_idx + 1:
                 self.call_stack.pop()
+
+            # Discard operands that were pending when the exception was thrown
+            del self.stack[stack_depth:]
 
             # Jump to catch handler
             frame = self.call_stack[-1]
